@@ -131,8 +131,8 @@ def modelEval (w : World) (cfg : Cfg String) (date : Date) (a b : String) : Res 
 /-- number of loop iterations a table computation takes (for the fuel-bound statistics): smallest fuel
 among a few candidates that suffices. -/
 def stepsNeeded (w : World) (date : Date) (b : String) : Nat :=
-  let cands := [8, 16, 32, 64, 128, 256, 1024, 4096, fuel]
-  (cands.find? fun f => (priceTable ⟨f, pickMax, ordId⟩ w.repo b date).isOk).getD (fuel + 1)
+  let cands := (List.range 65).drop 1 ++ [128, 256, 1024, 4096, fuel]
+  (cands.find? fun f => (priceTable ⟨f, pickMax, ordSorted⟩ w.repo b date).isOk).getD (fuel + 1)
 
 structure Tally where
   n : Nat := 0
